@@ -1031,6 +1031,20 @@ def _r8_unpack(ctx):
                 continue
             v = n.value
             ntargets = len(n.targets[0].elts)
+            if any(isinstance(e, ast.Starred) for e in n.targets[0].elts):
+                # a, *rest = s.split(sep): needs len >= (names - 1); split
+                # with an explicit separator always yields at least one field
+                need = ntargets - 1
+                if isinstance(v, ast.Call) and isinstance(
+                        v.func, ast.Attribute) and v.func.attr in (
+                            "split", "rsplit") and need <= 1 and v.args \
+                        and not (isinstance(v.args[0], ast.Constant)
+                                 and v.args[0].value is None):
+                    run.ok("C07.R8", fi.qualname, src(n)[:70],
+                           "starred unpacking needs %d field(s); split with "
+                           "a separator yields at least one" % need,
+                           loc=m.loc(fi, n))
+                    continue
             if isinstance(v, ast.Call) and isinstance(v.func, ast.Attribute) \
                     and v.func.attr in ("split", "rsplit"):
                 ok, why = _split_arity_guard(ctx, fi, n, v, ntargets)
